@@ -804,7 +804,7 @@ class C12(Prop):
             meta.append(("trace", base, tr, K, H))
         srcs = ["periodic", "sporadic", "extrap", "propagated", "jitter", "sum"]
         for _ in range(ctx.scale(160, 2000)):
-            ab = gen.gen_ab(rng, rng.choice([0, 0, 1]), srcs, True, False)
+            ab = gen.gen_ab(rng, rng.choice([0, 0, 1]), srcs, True, True)
             H = rng.randint(20, 200)
             r = rng.random()
             if r < 0.3: conv = ["from_ab", ab, rng.randint(1, 10)]; how = "from_ab"
@@ -831,7 +831,7 @@ class C12(Prop):
             qs += [["curvevec", conv], ["natab", ["curve", conv], H], ["natab", ab, H]]
             meta.append(("conv", base, ab, conv[0], H))
         for _ in range(ctx.scale(100, 1200)):
-            ab = gen.gen_ab(rng, rng.choice([0, 1]), ["periodic", "sporadic", "curve", "extrap", "propagated", "jitter", "sum"], True, False)
+            ab = gen.gen_ab(rng, rng.choice([0, 1]), ["periodic", "sporadic", "curve", "extrap", "propagated", "jitter", "sum"], True, True)
             K = rng.randint(3, 12)
             base = len(qs)
             qs += [["dmins", ab, K], ["natab", ab, 400]]
@@ -935,11 +935,11 @@ class C13(Prop):
                 ctx.oracle("values_inside_prefix_unchanged", not bad, "number_arrivals changed inside the original prefix at %s" % bad[:3], Q, cls="oracle:inside_changed")
                 hz = vec[-1]
                 for x in range(0, H + 1):
-                    inside = x < hz or (x == hz and not (len(vec) >= 2 and vec[-1] == vec[-2]))
+                    inside = x <= hz          # (since fix 7d9efbf also for plateau-ended extrapolated vectors)
                     ctx.dist("tighten_query", "within_horizon" if inside else "beyond_horizon")
                     if text[x] > torig[x]:
                         ctx.oracle("only_tightens", False, "prefix %s extrapolated to %s: number_arrivals(%d) = %d exceeds the un-extrapolated curve's %d (%s the extrapolated horizon %d)" %
-                                   (d, vec, x, text[x], torig[x], "within" if inside else "at (plateau-ended vector) or beyond", hz), Q + [rows[base + 2][0]],
+                                   (d, vec, x, text[x], torig[x], "within" if inside else "beyond", hz), Q + [rows[base + 2][0]],
                                    cls="oracle:raises" if inside else "oracle:raises_beyond_horizon")
                         break
                 else:
@@ -1422,7 +1422,7 @@ def burst_prefix(rng):
     b = rng.randint(2, 3); g = rng.randint(0, 2); P = rng.randint(8, 25) + (b - 1) * g
     tr = [k * P + i * g for k in range(6) for i in range(b)]
     d = gen.dmin_of_trace(tr, rng.randint(2, 7))
-    return d if d and d[-1] > 0 and not gen.plateau_end(d) else [g + 1, P, P + g + 1]
+    return d if d and d[-1] > 0 else [g + 1, P, P + g + 1]
 
 @register("C18")
 class C18(Prop):
@@ -1654,7 +1654,7 @@ class C20(Prop):
         qs = []
         n = ctx.scale(60, 900)
         for _ in range(n):
-            qs += families.q_arrival(rng, ["periodic", "sporadic", "never", "curve", "extrap", "propagated", "jitter", "sum", "sum2"], True, False)
+            qs += families.q_arrival(rng, ["periodic", "sporadic", "never", "curve", "extrap", "propagated", "jitter", "sum", "sum2"], True, True)
             qs += families.q_cost(rng) + families.q_demand(rng) + families.q_supply(rng) + families.q_search(rng)[:1]
             qs += families.q_hist(rng) + families.q_chist(rng)
         for _ in range(ctx.scale(220, 3000)):
